@@ -4,6 +4,8 @@ from vx.props import common, C05
 from vx.units import instance_ops as io, evaluate as ev, bound
 
 
+from vx.units import validate as va
+
 def build(asm, tier):
     asm.raw(common.HEADER)
     asm.raw('pub mod lib {\n' + common.LIB_USES)
@@ -28,19 +30,22 @@ def build(asm, tier):
     for n in ('BoundError::check', 'Bound::new', 'Default for Bound', 'Bound::lower', 'Bound::upper', 'Bound::width'):
         asm.unit(bu[n])
     asm.raw('} // mod lib\npub mod units {\n' + common.UNITS_USES + 'broadcast use super::lib::ax_zero_f64, super::lib::ax_variable_id_key_model;\nuse super::lib::v1::decision_variable::Kind;\n')
-    asm.raw(io.SLACK_STUBS + io.defined_ids_stub(), 'assumed callee contracts')
+    asm.raw(io.SLACK_STUBS, 'assumed callee contracts')
     for n, where in (('Instance::get_kinds', 'assumed (iterator collect into a HashMap)'),
                      ('Function::used_decision_variable_ids', 'C08 (all four kinds and the dispatch)'),
                      ('Function::content_factor', 'assumed (gcd/lcm over f64 mantissas: not within reach); exercised by the bounded stand-in'),
                      ('Function::evaluate_bound', 'C16 (same preconditions: bounds_wf, small_degree, fn_coo_ok)'),
                      ('f64 * Function', 'C02 (value and ids); the clause small_degree(rhs) ==> small_degree(r) is assumed'),
                      ('Function + Linear', 'C02'),
-                     ('Bound::as_integer_bound (A3: returns)', 'C16 (result); that it returns is assumption A3'),
-                     ('Instance::defined_ids', 'C08')):
+                     ('Bound::as_integer_bound (A3: returns)', 'C16 (result); that it returns is assumption A3')):
         asm.stubs.append(dict(unit=n, proved_in=where))
     for u in (ev.bound_try_from_v1bound(), ev.get_bounds(), io.v1bound_from_bound(), io.linear_single_term(), io.relax_constraint(), io.convert_inequality(), io.add_integer_slack()):
         asm.unit(u)
     asm.raw('} // mod units\n')
+    # Instance::defined_ids in a module of its own: the broadcast membership lemma stays out of the other units' contexts
+    asm.raw('pub mod dunits {\n' + common.UNITS_USES + 'broadcast use super::lib::lemma_dv_ids_mem_b;\n')
+    asm.unit(va.defined_ids())
+    asm.raw('} // mod dunits\n')
     asm.guard(common.guard_fn('c13', 'broadcast use ax_zero_f64, ax_variable_id_key_model; ax_int_consts(); ax_int_add(1real, 1real); ax_floor(1real / 2real); ax_discrete(0real, 1real);', uses='use super::lib::*;'), 'vacuity: axioms')
     asm.guard('''pub mod guard_c13b { use vstd::prelude::*; use super::lib::*;
 proof fn vacuity_pre(v: real, a: real, l: real) requires a > 0real, is_intr(a * v), l <= a * v, v < 0real { assert(false); }
@@ -51,7 +56,7 @@ proof fn vacuity_pre(v: real, a: real, l: real) requires a > 0real, is_intr(a * 
         composes_with={'C02': '*'},      # the Function operators used here are the contracts proved in C02
         min_items=12,
         trusted_base=common.TRUSTED_COMMON + common.T4_COLLECTIONS + [
-            'T5 ASSUMED callee contracts: Function::content_factor (integrality of a*f on integer points), Function::evaluate_bound (enclosure), get_kinds, used_decision_variable_ids, defined_ids, f64*Function and Function+Linear (pure, value up to an explicit remainder)',
+            'T5 ASSUMED callee contracts: Function::content_factor (integrality of a*f on integer points), Function::evaluate_bound (enclosure), get_kinds, used_decision_variable_ids, f64*Function and Function+Linear (pure, value up to an explicit remainder)',
             'A3: Bound::as_integer_bound returns (the rounded interval contains an integer); it panics otherwise - observation outside the property',
             'T4: Vec::iter_mut().find(C) as a prophecy-style helper; u64 as f64 exact',
         ],
